@@ -59,7 +59,7 @@ def stObs (s : State) : List String :=
            "pc=" ++ listTok (((List.range s.nextW).filter fun w => (s.snap w).isSome).map fun w => s!"w{w}")]
 
 /-- property predicates on the implementation's sends of one operation -/
-def monitorSends (s : St) (impl : List String) : St × List String :=
+def monitorSends (s : St) (opKind : String) (impl : List String) : St × List String :=
   let toks := match kv? impl "sends" with | some t => list? t | none => []
   toks.foldl (fun (acc : St × List String) t =>
     match t.splitOn ":" with
@@ -68,8 +68,10 @@ def monitorSends (s : St) (impl : List String) : St × List String :=
       | some w =>
         let n := acc.1.sentCount w + 1
         let st := { acc.1 with sentCount := fun k => if k = w then n else acc.1.sentCount k }
-        let key := if w ∈ acc.1.staleW then "success-from-stale-torrent-object"
-          else if (match acc.1.wtor.find? (·.1 = w) with | some (_, h) => decide (h ∈ acc.1.evicted) | none => false) = true then "success-after-eviction"
+        -- each known key is tied to its own history: stale torrent object = the application of the event of a split
+        -- request whose CreateTorrent saw the blob cached; eviction = a completion notice applied after the eviction
+        let key := if w ∈ acc.1.staleW ∧ opKind = "apply" then "success-from-stale-torrent-object"
+          else if opKind = "notice" ∧ (match acc.1.wtor.find? (·.1 = w) with | some (_, h) => decide (h ∈ acc.1.evicted) | none => false) = true then "success-after-eviction"
           else "success-without-blob"
         let pf := (if n = 2 then [s!"side=impl key=waiter-answered-twice {wt} got a second result ({r})"] else []) ++
                   (if r = "ok" ∧ ca = "0" then [s!"side=impl key={key} {wt} was told ok while the blob is not in the cache"] else [])
@@ -136,7 +138,7 @@ def step (s : St) (kind : String) (args impl : List String) : Option (St × Step
         | [wt, "ok", _] => if pref? 'w' wt = some k then none else
             some s!"side=impl key=success-told-by-another-request {wt} was told ok while the event of w{k} was applied"
         | _ => none)
-  let (s, pfs) := monitorSends s impl
+  let (s, pfs) := monitorSends s (args.headD "") impl
   let pfs := pfs ++ foreignOk
   let fin (m' : State) (first : List String) (br : String) : Option (St × StepOut) :=
     some ({ s with m := m' }, { obs := first ++ [sendsTok s.m m'], branch := br, propfails := pfs })
